@@ -14,7 +14,9 @@ RULE = ("constructors: every name = letter x every '#'/'b' string up to length k
         "predicates x include_fourths in {True, False}. Non-trivial constructor case: input with >= 2 accidentals, or the "
         "target letter wraps past B, or the plainly counted accidental of the result exceeds +-6 so that the spelling "
         "must be folded to the other sign. Non-trivial pair: different letters and (an input with >= 2 accidentals or "
-        "a descending pitch-class difference, i.e. the mod-12 wrap).")
+        "a descending pitch-class difference, i.e. the mod-12 wrap). Also: Hypothesis pairs with accidental strings of "
+        "length 0..40 (half of them on one letter); every pair with <= 2 accidentals with the flag omitted, passed by keyword "
+        "and given as a number (0, 1, 0.0, 2).")
 ASSUMPTIONS = [
     "oracle: own constructor table (interval number, semitones) and letter/semitone arithmetic in vlib/ref/theory.py",
     "spelling is compared as (letter, pitch class, unmixed, <= 6 accidentals), never as an exact accidental string",
@@ -97,8 +99,54 @@ def check_pair(ctx, case):
     ctx.note_case(nontrivial, ["measure:%d" % m])
 
 
+FLAG_FORMS = (0, 1, 0.0, 2)  # numbers used as the optional flag: the predicates read it by truth value, like any Python flag
+
+
+def check_pair_forms(ctx, case):
+    """the same predicates called with the flag omitted (documented defaults: fourths count as consonant), by keyword, and
+    with numbers standing in for True / False"""
+    a, b = case
+    m = (T.pc(b) - T.pc(a)) % 12
+    imperfect = m in (3, 4, 8, 9)
+
+    def perfect(fourths):
+        return m in (0, 7) or (bool(fourths) and m == 5)
+
+    def expect(fname, fourths):
+        if fname == "is_perfect_consonant":
+            return perfect(fourths)
+        if fname == "is_consonant":
+            return perfect(fourths) or imperfect
+        return not (perfect(not fourths) or imperfect)
+
+    for fname, default in (("is_perfect_consonant", True), ("is_consonant", True), ("is_dissonant", False)):
+        f = getattr(intervals, fname)
+        r = ctx.ok(fname + "/default-flag", f, a, b)
+        if not failed(r):
+            ctx.check(bool(r) == expect(fname, default), fname + "/default-flag/value",
+                      lambda: "%s(%r, %r) -> %r at %d semitones" % (fname, a, b, r, m))
+        for flag in (True, False):
+            r = ctx.ok(fname + "/keyword", lambda: f(a, b, include_fourths=flag))
+            if not failed(r):
+                ctx.check(bool(r) == expect(fname, flag), fname + "/keyword/value",
+                          lambda: "%s(%r, %r, include_fourths=%r) -> %r at %d semitones" % (fname, a, b, flag, r, m))
+            r = ctx.ok(fname + "/keyword", lambda: f(note1=a, note2=b, include_fourths=flag))
+            if not failed(r):
+                ctx.check(bool(r) == expect(fname, flag), fname + "/keyword/value",
+                          lambda: "%s(note1=%r, note2=%r, include_fourths=%r) -> %r at %d semitones" % (fname, a, b, flag, r, m))
+        for flag in FLAG_FORMS:
+            r = ctx.ok(fname + "/number-flag", f, a, b, flag)
+            if not failed(r):
+                ctx.check(bool(r) == expect(fname, flag), fname + "/number-flag/value",
+                          lambda: "%s(%r, %r, %r) -> %r at %d semitones" % (fname, a, b, flag, r, m))
+    r = ctx.ok("measure/keyword", lambda: intervals.measure(note1=a, note2=b))
+    if not failed(r):
+        ctx.check(r == m, "measure/keyword/value", lambda: "measure(note1=%r, note2=%r) -> %r, expected %d" % (a, b, r, m))
+    ctx.note_case(m in (0, 5, 7) or a[0] != b[0], ["forms:measure:%d" % m])
+
+
 check_constructor = latched("constructor", check_constructor)  # a broken correction loop never terminates
-CHECKS = {"constructor": check_constructor, "pair": check_pair}
+CHECKS = {"constructor": check_constructor, "pair": check_pair, "pair_forms": check_pair_forms}
 
 
 def _shard(seq, shard, nshards):
@@ -131,8 +179,29 @@ def sub_pairs(ctx, shard, n):
     ctx.enumerate("pair", check_pair, ([a, b] for a in _shard(names, shard, n) for b in names))
 
 
+def sub_pair_forms(ctx, shard, n):
+    names = T.all_names(2)
+    if shard == 0:
+        ctx.exhaustive("flag forms (omitted / keyword / numbers as flags): ordered pairs of names", "accidental length <= 2", len(names) ** 2)
+    ctx.enumerate("pair_forms", check_pair_forms, ([a, b] for a in _shard(names, shard, n) for b in names))
+
+
+def sub_pairs_long(ctx, shard, n):
+    """pairs whose accidental strings are far longer than the enumerated bound; half of them on one letter, so that the
+    difference is carried by the accidentals alone (gaps of a whole octave and more in either direction)"""
+    acc = (st.text(alphabet="#b", min_size=0, max_size=40)
+           | st.builds(lambda s, k: s * k, st.sampled_from("#b"), st.integers(0, 40)))
+    letter = st.sampled_from(T.LETTERS)
+    pair = st.one_of(
+        st.tuples(letter, acc, acc).map(lambda t: [t[0] + t[1], t[0] + t[2]]),
+        st.tuples(letter, acc, letter, acc).map(lambda t: [t[0] + t[1], t[2] + t[3]]))
+    ctx.given("pair", check_pair, pair, 1500 if ctx.quick else 40000)
+
+
 SUBS = [
     Sub("constructors", sub_constructors, quick=4, thorough=16),
     Sub("constructors_long", sub_constructors_long, quick=1, thorough=4),
     Sub("pairs", sub_pairs, quick=4, thorough=16),
+    Sub("pair_forms", sub_pair_forms, quick=2, thorough=2),
+    Sub("pairs_long", sub_pairs_long, quick=1, thorough=4),
 ]
